@@ -20,6 +20,7 @@ that libm's `arctan2` agrees with the real `arg` to rounding and the resulting `
 the IEEE evaluation.
 -/
 import Midgard.Proofs.GeoReal
+import Midgard.Proofs.SourceTie
 import Midgard.Model.Kepler
 
 namespace Midgard.Props.C07
@@ -354,6 +355,42 @@ theorem trs2kepler_kepler2trs (GM : ℝ) (k : Kep ℝ) (hGM : 0 < GM) (ha : 0 < 
       rw [if_neg hge, hdiff, hn']; push_cast; ring
   rw [hom]
 
+
+/-! ### The model is the source (regenerated on every run)
+
+`Generated/SourceExprs.lean` is written by `translator/extract_exprs.py` from the Python `ast` of the tree under
+test: the arithmetic of the functions named below, statement by statement.  The theorems of this section say that the
+hand-written model definitions every other theorem of this file is about are, over the reals, *equal* to those
+regenerated definitions (composed with the hand-modelled branch selection where the source has control flow).  A
+change of the source arithmetic therefore breaks one of these (unless it is an algebraic identity over ℝ, which the
+fallback of the `src_tie` tactic — unfold, compare component by component with `ring_nf` — accepts). -/
+section Source
+open Midgard.Generated
+set_option linter.unusedTactic false
+set_option linter.unreachableTactic false
+set_option linter.unusedSimpArgs false
+set_option linter.unnecessarySeqFocus false
+
+theorem source_kepler2trs (GM : ℝ) (k : Kep ℝ) :
+    kepler2trs GM k =
+      (let o := Src.kepler2trsOrbSrc k.a k.e k.E GM
+       let pqw := Src.kepler2trsPqwSrc R1 R3 k.Omega k.i k.omega
+       (⟨pqw.mulVec o.1, pqw.mulVec o.2⟩ : V6 ℝ)) := by
+  src_tie [kepler2trs, kepler2trsCore, Src.kepler2trsOrbSrc, Src.kepler2trsPqwSrc, R1, R3, R1cs, R3cs]
+theorem source_trs2kepler (GM : ℝ) (w : V6 ℝ) :
+    trs2kepler GM w =
+      (let h := V3.cross w.p w.v
+       let hu := h.sdiv h.norm
+       let s := Src.trs2keplerSrc w.p.norm w.v.norm h.norm hu.x hu.y hu.z (V3.dot w.p w.v) GM w.p.x w.p.y w.p.z
+       let omega0 := s.2.2.2.2.1
+       (⟨s.1, s.2.1, s.2.2.1, s.2.2.2.1, if omega0 < 0 then omega0 + (1 + 1) * Trig.pi else omega0, s.2.2.2.2.2⟩ : Kep ℝ)) := by
+  src_tie [trs2kepler, Src.trs2keplerSrc]
+theorem source_anomalies (e E : ℝ) :
+    Src.meanAnomalySrc e E = meanAnomaly e E ∧ Src.trueAnomalySrc e E = trueAnomaly e E := by
+  refine ⟨?_, ?_⟩ <;> src_tie [Src.meanAnomalySrc, Src.trueAnomalySrc, meanAnomaly, trueAnomaly]
+
+end Source
+
 end Midgard.Props.C07
 
 #print axioms Midgard.Props.C07.radius
@@ -374,3 +411,6 @@ end Midgard.Props.C07
 #print axioms Midgard.Props.C07.kepler2trs_eq_state
 #print axioms Midgard.Props.C07.fac_g_hypotheses
 #print axioms Midgard.Props.C07.trs2kepler_kepler2trs
+#print axioms Midgard.Props.C07.source_kepler2trs
+#print axioms Midgard.Props.C07.source_trs2kepler
+#print axioms Midgard.Props.C07.source_anomalies
